@@ -9,9 +9,14 @@
     `Inside b p`     p = b  ∨  ∃ n, IsName n ∧ p = childPath b n       — "located inside the configured root"
     `stored s tid`   what the datastore holds under `"thread-" ++ tid` (or `[]`)
     `hist tid reqs resps`  concatenation of `new messages ++ [reply]` over the completed turns carrying `tid`
+    `Op`, `World`, `runOps`  histories in which the datastore is also used by others (`Models/ServerOps.lean`):
+                     requests, external changes of a key (`ext k f`, `f` arbitrary), `register_datastore` (`swap`),
+                     several server processes (`proc i`), restarts, cache eviction by the auto-reload watcher
+    `turnEffect σ r a`, `absStep`, `absRun`  the datastore of the STATEMENT: a function of the datastore before,
+                     the operations and the answers only (never of anything a process remembers)
   `bad` is the regex of the current source (`Generated.C20.rejectAlts`, re-generated on every run).
 -/
-import NemoVerif.Lemmas.Server
+import NemoVerif.Lemmas.ServerOps
 namespace NemoVerif.C20
 open NemoVerif NemoVerif.Server NemoVerif.Generated.C20
 
@@ -220,6 +225,133 @@ example :
     let mk (tid : String) (m : Nat) : Req Nat := { configId := some "a".toList, configIds := none, threadId := some tid.toList, context := none, messages := [m], stream := false }
     let out := run cfg (fun _ => true) (fun turn _ _ => some (100 + turn)) {} [mk "tttttttttttttttt" 1, mk "uuuuuuuuuuuuuuuu" 2, mk "tttttttttttttttt" 3]
     stored out.2 "tttttttttttttttt".toList = [1, 101, 3, 103] ∧ stored out.2 "uuuuuuuuuuuuuuuu".toList = [2, 102] := by
+  decide
+
+/-! ## Part 3 — the datastore is shared: histories with other actors -/
+
+/-- **A turn reads the store, nothing else.** Two server states that agree on the CONTENT of the datastore
+    (key by key — however it got there), on the rails cache and on the turn counter answer a request
+    identically and leave datastores with the same content: nothing a process may remember about earlier
+    turns of a thread enters a turn. -/
+theorem chat_step_reads_store {M : Type} (cfg : Cfg) (pathOk : Str → Bool) (gen : Gen M) (s s' : State M) (r : Req M)
+    (h : ∀ k, s.get k = s'.get k) (hc : s.cache = s'.cache) (ht : s.turn = s'.turn) :
+    (step cfg pathOk gen s r).1 = (step cfg pathOk gen s' r).1 ∧
+    ∀ k, (step cfg pathOk gen s r).2.get k = (step cfg pathOk gen s' r).2.get k := by
+  have h1 := step_congr cfg pathOk gen s s' r h hc ht
+  refine ⟨h1, fun k => ?_⟩
+  rw [step_get, step_get, h1, show s.get = s'.get from funext h]
+
+/-- non-vacuity: two different association lists with the same content (a shadowed binding, another order). -/
+example :
+    let s : State Nat := { store := [("k".toList, [1]), ("j".toList, [2]), ("k".toList, [9])] }
+    let s' : State Nat := { store := [("j".toList, [2]), ("k".toList, [1])] }
+    s.store ≠ s'.store ∧ s.get "k".toList = s'.get "k".toList ∧ s.get "j".toList = s'.get "j".toList := by
+  decide
+
+/-- **One request, key by key, whoever else uses the store.** The datastore after a request is
+    `turnEffect` of the datastore before: a completed turn on thread `t` binds `"thread-"+t` to
+    (stored thread ++ new messages ++ [reply]); every other key and every other kind of answer leaves the
+    content as it was (`some`/absent distinguished — an erased thread stays erased unless a turn completes). -/
+theorem turn_store_exact {M : Type} (cfg : Cfg) (pathOk : Str → Bool) (gen : Gen M) (s : State M) (r : Req M) (k : Str) :
+    (step cfg pathOk gen s r).2.get k = turnEffect s.get r (step cfg pathOk gen s r).1 k :=
+  step_get cfg pathOk gen s r k
+
+/-- **Refinement for every history with other actors.** From any world, after any sequence of requests
+    (served by any of several processes), external changes of any key by an arbitrary function, datastore
+    swaps, restarts and cache evictions: the content of the datastore is, key by key, the datastore of the
+    statement (`absRun`), which is computed from the initial content, the operations and the answers alone. -/
+theorem thread_refines_ops {M : Type} (cfg : Cfg) (pathOk : Str → Bool) (gen : Gen M) (w : World M) (ops : List (Op M)) (k : Str) :
+    (runOps cfg pathOk gen w ops).2.get k = absRun w.get ops (runOps cfg pathOk gen w ops).1 k :=
+  runOps_get cfg pathOk gen ops w k
+
+/-- **The exact stored thread is used, after any such history, by whichever process answers.** -/
+theorem turn_uses_exact_store_ops {M : Type} (cfg : Cfg) (pathOk : Str → Bool) (gen : Gen M) (w : World M)
+    (pre : List (Op M)) (r : Req M) (t : Str) (ht : r.threadId = some t) (reply : M) (used : List M) (served : List Str)
+    (h : (opStep cfg pathOk gen (runOps cfg pathOk gen w pre).2 (.req r)).1 = some (.ok reply used served)) :
+    used = (absRun w.get pre (runOps cfg pathOk gen w pre).1 (threadKey t)).getD [] ++ newMsgs r ∧
+    (opStep cfg pathOk gen (runOps cfg pathOk gen w pre).2 (.req r)).2.get (threadKey t) = some (used ++ [reply]) := by
+  simp only [opStep, Option.some.injEq] at h
+  have h1 := (step_used cfg pathOk gen (runOps cfg pathOk gen w pre).2.st r).1 reply used served h
+  refine ⟨?_, h1.2.1 t ht⟩
+  rw [h1.1, ht, ← runOps_get]
+  rfl
+
+/-- non-vacuity, and the history of the missed seeded change: process 0 serves thread `t`, somebody else
+    rewrites the stored thread, process 1 serves it, the thread is erased, process 0 serves it again — each turn
+    uses what is stored at that moment (evaluation). -/
+example :
+    let cfg : Cfg := { root := "/srv/configs".toList, cwd := "/".toList, single := none, default := none, hasStore := true, streaming := false }
+    let t := "tttttttttttttttt".toList
+    let mk (m : Nat) : Op Nat := .req { configId := some "a".toList, configIds := none, threadId := some t, context := none, messages := [m], stream := false }
+    let out := runOps cfg (fun _ => true) (fun turn _ _ => some (100 + turn)) {}
+      [mk 1, .ext (threadKey t) (fun _ => some [7, 8]), mk 2, .proc 1, mk 3, .ext (threadKey t) (fun _ => none), .proc 0, mk 4]
+    out.1 = [some (.ok 101 [1] ["/srv/configs/a".toList]), none, some (.ok 102 [7, 8, 2] ["/srv/configs/a".toList]), none,
+             some (.ok 103 [7, 8, 2, 102, 3] ["/srv/configs/a".toList]), none, none, some (.ok 104 [4] ["/srv/configs/a".toList])] ∧
+    out.2.get (threadKey t) = some [4, 104] := by
+  decide
+
+/-- **Threads never mix, other actors included (frame over histories).** A key changes only through a
+    completed turn on the thread with that key, an external change of that very key, or a datastore swap:
+    after any history in which none of these happened for `k`, the datastore holds for `k` exactly what it
+    held before — whatever was done to other threads, by whichever process. -/
+theorem threads_do_not_mix_ops {M : Type} (cfg : Cfg) (pathOk : Str → Bool) (gen : Gen M) (w : World M) (ops : List (Op M)) (k : Str)
+    (h : touchedIn k ops (runOps cfg pathOk gen w ops).1 = false) :
+    (runOps cfg pathOk gen w ops).2.get k = w.get k := by
+  rw [runOps_get, absRun_untouched ops _ _ k h]
+
+/-- non-vacuity: a history full of turns, external changes and process switches on thread `t` does not touch thread `u`. -/
+example :
+    let cfg : Cfg := { root := "/srv/configs".toList, cwd := "/".toList, single := none, default := none, hasStore := true, streaming := false }
+    let t := "tttttttttttttttt".toList
+    let u := "uuuuuuuuuuuuuuuu".toList
+    let mk (m : Nat) : Op Nat := .req { configId := some "a".toList, configIds := none, threadId := some t, context := none, messages := [m], stream := false }
+    let ops : List (Op Nat) := [mk 1, .ext (threadKey t) (fun _ => some [7, 8]), .proc 1, mk 2, .restart, .ext (threadKey t) (fun _ => none), mk 3]
+    let w : World Nat := { st := { store := [(threadKey u, [5, 6])] } }
+    touchedIn (threadKey u) ops (runOps cfg (fun _ => true) (fun turn _ _ => some (100 + turn)) w ops).1 = false ∧
+    (runOps cfg (fun _ => true) (fun turn _ _ => some (100 + turn)) w ops).2.get (threadKey u) = some [5, 6] := by
+  decide
+
+/-- **Only confined paths are ever loaded — every history, every process.** From the initial world, after
+    any history: every path handed to `RailsConfig.from_path` by any process, every path of every cached
+    instance of every process (also after restarts and evictions) and every serving instance is inside the root. -/
+theorem loaded_only_if_confined_ops {M : Type} (cfg : Cfg) (hcwd : cfg.cwd.head? = some '/') (pathOk : Str → Bool)
+    (gen : Gen M) (ops : List (Op M)) :
+    let out := runOps cfg pathOk gen {} ops
+    (∀ p ∈ out.2.st.loads, Inside cfg.base p) ∧
+    (∀ i, ∀ kp ∈ out.2.cacheOf i, ∀ p ∈ kp.2, Inside cfg.base p) ∧
+    (∀ a ∈ out.1, ∀ reply used served, a = some (.ok reply used served) → ∀ p ∈ served, Inside cfg.base p) := by
+  intro out
+  have h := runOps_inv cfg (abspath_absNorm cfg.cwd cfg.root hcwd) pathOk gen ops {}
+    ⟨⟨by simp, by simp [CacheOk]⟩, by simp⟩
+  refine ⟨h.1.1.1, ?_, h.2⟩
+  intro i
+  unfold World.cacheOf
+  split
+  · exact h.1.1.2
+  · cases hl : lookupN i (runOps cfg pathOk gen {} ops).2.parked with
+    | none => simp
+    | some c => exact h.1.2 (i, c) (lookupN_mem i _ c hl)
+
+/-- **A rejected id gets the fixed reply after every history** (multi-config mode): whatever was served,
+    evicted, restarted or stored before, by whichever process. -/
+theorem bad_id_never_served_ops {M : Type} (cfg : Cfg) (hs : cfg.single = none) (pathOk : Str → Bool) (gen : Gen M)
+    (pre : List (Op M)) (r : Req M) (ids? : Option (List Str)) (ids : List Str)
+    (hv : validate r = some ids?) (hr : resolveIds cfg ids? = some ids) (hbad : ∃ id ∈ ids, bad id = true) :
+    let w := (runOps cfg pathOk gen {} pre).2
+    (opStep cfg pathOk gen w (.req r)).1 = some (.couldNotLoad ids) ∧ (opStep cfg pathOk gen w (.req r)).2.st.store = w.st.store := by
+  intro w
+  have hk := runOps_keysGood cfg hs pathOk gen pre {} ⟨by simp [KeysGood], by simp⟩
+  have h := step_bad cfg hs pathOk gen w.st r hk.1 ids? ids hv hr hbad
+  exact ⟨by simp only [opStep]; rw [h.1], h.2.2⟩
+
+/-- non-vacuity of the two theorems above: a history with two processes, an eviction and a restart that loads
+    `/srv/configs/a` twice and rejects `../x` in between. -/
+example :
+    let cfg : Cfg := { root := "/srv/configs".toList, cwd := "/".toList, single := none, default := none, hasStore := true, streaming := false }
+    let mk (id : String) : Op Nat := .req { configId := some id.toList, configIds := none, threadId := none, context := none, messages := [1], stream := false }
+    let out := runOps cfg (fun _ => true) (fun _ _ _ => some 7) {} [mk "a", .proc 1, mk "../x", mk "a", .evict "a".toList, .proc 0, .restart, mk "b"]
+    out.2.st.loads = ["/srv/configs/a".toList, "/srv/configs/a".toList, "/srv/configs/b".toList] ∧
+    out.2.cacheOf 0 = [("b".toList, ["/srv/configs/b".toList])] ∧ out.2.cacheOf 1 = [] := by
   decide
 
 end NemoVerif.C20
